@@ -51,6 +51,7 @@ type World struct {
 
 	txs        map[[32]byte]*txInfo
 	ledger     map[btc.TxPrevOut]*chainkit.Coin // harness view of the confirmed unspent outputs it can spend
+	mir        *mirror                          // realclient.go: the replica node (gocoin's client as a child process) of this world, if any
 	blocks     []*blockRec                      // blocks connected by the harness on top of the setup chain
 	log        []string                         // oracle lines = the op history (replay)
 	name       string
@@ -448,6 +449,7 @@ func (w *World) submit(ti *txInfo, mode string) (code int) {
 		w.r.TieOK()
 	}
 	w.verify()
+	w.mir.op([]string{"tx " + mode + " " + hex.EncodeToString(ti.raw)}, "submit-"+mode, "")
 	return real
 }
 
@@ -741,6 +743,7 @@ func (w *World) mine(cands []*txInfo) bool {
 	w.ledgerConnect(txs, height)
 	w.syncTip()
 	w.verify()
+	w.mir.op([]string{"blk " + hex.EncodeToString(raw)}, "block", hex.EncodeToString(raw[:80]))
 	return true
 }
 
@@ -795,6 +798,7 @@ func (w *World) undoLast(slow bool) bool {
 	w.ledgerDisconnect()
 	w.syncTip()
 	w.verify()
+	w.mir.op([]string{"undo " + b01(slow)}, "undo", "")
 	return true
 }
 
@@ -1101,6 +1105,7 @@ func (w *World) reload() {
 		return
 	}
 	w.verify()
+	w.mir.op([]string{"save", "load"}, "save+reload", "")
 }
 
 // ------------------------------------------------------------------------------------------ observation
